@@ -72,9 +72,17 @@ class Software:
             oversion, opatch = mx.group(1), mx.group(2).strip()
         else:
             oversion, opatch = other, ''
-        if self.version < oversion:
+        # Compare the versions numerically, component by component, so that 10.0 is newer than 9.9 (a plain string comparison would claim otherwise).  Fall back to string comparison if either version is not purely numeric.
+        sversion_cmp: Any = self.version
+        oversion_cmp: Any = oversion
+        try:
+            sversion_cmp = tuple(int(x) for x in self.version.split('.'))
+            oversion_cmp = tuple(int(x) for x in oversion.split('.'))
+        except ValueError:
+            sversion_cmp, oversion_cmp = self.version, oversion
+        if sversion_cmp < oversion_cmp:
             return -1
-        elif self.version > oversion:
+        elif sversion_cmp > oversion_cmp:
             return 1
         spatch = self.patch or ''
         if self.product == Product.DropbearSSH:
